@@ -74,6 +74,34 @@ class CassetteFile(VirtualFileContainer):
         self.append_data_blocks(coco_file.data)
         self.append_eof()
 
+    def is_complete_tape(self):
+        """
+        Returns True if the whole buffer, from its first byte to its last, is made of
+        tape blocks separated by nothing but blank ($00) and leader ($55) bytes. Block
+        payloads are skipped by their length byte, so their content does not matter.
+
+        :return: True if the buffer holds at least one block and nothing that is not tape
+        """
+        pointer = 0
+        blocks = 0
+        length = len(self.buffer)
+        while pointer < length:
+            if self.buffer[pointer] == 0x00:
+                pointer += 1
+            elif self.buffer[pointer] != 0x55:
+                return False
+            elif pointer + 1 < length and self.buffer[pointer + 1] == 0x3C:
+                if pointer + 3 >= length:
+                    return False
+                # sync bytes, type, length, payload, checksum and the trailing $55
+                pointer += 4 + self.buffer[pointer + 3] + 2
+                if pointer > length:
+                    return False
+                blocks += 1
+            else:
+                pointer += 1
+        return blocks > 0
+
     def skip_to_sequence(self, sequence, start=0):
         """
         Returns a pointer to the internal buffer where the start of the specified sequence begins.
